@@ -28,7 +28,8 @@ META = {
 }
 
 SHAPES = ["sparse_block", "sparse_block", "incomplete", "incomplete", "near_unanimous_incomplete", "near_unanimous",
-          "complete", "identical", "cyclic", "cyclic", "cyclic_incomplete", "cyclic_incomplete", "cyclic_incomplete"]
+          "complete", "identical", "cyclic", "cyclic", "cyclic_incomplete", "cyclic_incomplete", "cyclic_incomplete",
+          "cyclic_ties", "cyclic_ties", "cyclic_ties", "mixture", "mixture"]
 ABSENT = ["exact_default", "exact_noopt", "exact_pulp", "enum_exact"]
 STANDIN = ["exact_default", "exact_noopt", "cplex_opt", "cplex_noopt", "cplex_paper", "enum_exact"]
 
@@ -144,10 +145,23 @@ def check_all_optima(case, ctx):
                             [[sorted(b, key=str) for b in g] for g in (gs - want)][:4]))
 
 
+@st.composite
+def cycle_tie_cases(draw, tier):
+    """Condorcet cycles plus rankings tying the same elements, under schemes where a tie costs about as much as an
+    inversion: inside the component no pair alone prefers the tie strictly, yet a tied bucket beats every strict
+    order (or the converse) - the region where pruning rules about ties are decisive"""
+    name = draw(st.sampled_from(ABSENT))
+    scheme = draw(st.one_of(gen.preset_multiples(), gen.preset_multiples(), gen.free_schemes(), gen.near_presets()))
+    ds = draw(gen.datasets(max_n=6 if tier == "thorough" else 5, min_n=3, max_m=4, shapes=["cyclic_ties"],
+                           kinds=("dense", "mult8", "str"), allow_empty_rankings=False))
+    return {"config": name, "env": "absent", "scheme": scheme, "dataset": ds, "at_most_one": True, "rng": 0}
+
+
 def subchecks():
     return [
         HypSub("optimal_absent", lambda t: cases_for(t, ABSENT, "absent", 7, 9), check_optimal, 3000, 40000),
         HypSub("optimal_standin", lambda t: cases_for(t, STANDIN, "standin", 5, 6), check_optimal, 3000, 30000),
+        HypSub("cycles_vs_ties", cycle_tie_cases, check_optimal, 2000, 30000),
         HypSub("all_optima_standin", lambda t: cases_for(t, ["cplex_noopt", "exact_noopt"], "standin", 5, 6, (False,),
                                                     dyadic_only=True),
                check_all_optima, 2000, 20000),
